@@ -143,8 +143,9 @@ def run(pid, tier, repo, root, log):
                 cmd += ['--harness', e['harness']]
             env = dict(os.environ, CARGO_NET_OFFLINE='true', CARGO_TARGET_DIR=os.path.join(d, 'target'))
             try:
-                p = subprocess.run(cmd, cwd=d, env=env, capture_output=True, text=True,
-                                   timeout=3000 if tier == 'thorough' else 1500)
+                # address-space cap per process: a runaway CBMC must fail, not thrash the machine
+                p = subprocess.run(['bash', '-c', 'ulimit -v 20000000; exec "$@"', 'kani'] + cmd, cwd=d, env=env,
+                                   capture_output=True, text=True, timeout=3000 if tier == 'thorough' else 1500)
                 raw = {'out': p.stdout + '\n' + p.stderr, 'rc': p.returncode, 'cmd': ' '.join(cmd)}
             except subprocess.TimeoutExpired as ex:
                 raw = {'out': (ex.stdout or b'').decode(errors='replace') if isinstance(ex.stdout, bytes) else (ex.stdout or ''),
@@ -207,6 +208,8 @@ def run(pid, tier, repo, root, log):
             ob['status'] = 'discharged' if e.get('complete') else 'bounded'
             if not e.get('complete'):
                 out['bounded'].append({'id': e['id'], 'bound': e.get('bound'), 'harness': e['harness']})
+        elif not r['failed_checks'] or 'out of memory' in txt or 'CBMC timed out' in txt:
+            return {'undecided': 'harness %s: CBMC gave no verdict (out of memory / internal error)' % e['harness'], 'detail': txt[-1500:]}
         else:
             ob['status'] = 'failed'
             pb = raw.get('playback', {}).get(e['harness'], '')
